@@ -318,6 +318,19 @@ func (t *Trans) typeFacts(st *State, v string, tp types.Type) string {
 // typeFactsA: alloc is the allocation counter that bounds references inside the value.
 func (t *Trans) typeFactsA(alloc string, v string, tp types.Type) string {
 	st := &State{alloc: alloc}
+	if par, ok := tp.(*types.TypeParam); ok {
+		if ct := coreOfTypeParam(par); ct != nil {
+			if _, isParam := ct.(*types.TypeParam); !isParam {
+				if sl, isSlice := ct.(*types.Slice); isSlice {
+					if _, elemParam := sl.Elem().(*types.TypeParam); elemParam {
+						// the element type is a parameter as well: only the shape of the slice header is known
+						return fmt.Sprintf("(and (<= 0 (s_base %s)) (<= (s_base %s) %s) (<= 0 (s_off %s)) (<= 0 (s_len %s)) (<= (s_len %s) (s_cap %s)) (<= (s_cap %s) 4611686018427387904) (=> (= (s_base %s) 0) (= %s nil_slice)))", v, v, st.alloc, v, v, v, v, v, v, v)
+					}
+				}
+				return t.typeFactsA(alloc, v, ct)
+			}
+		}
+	}
 	switch u := tp.Underlying().(type) {
 	case *types.Basic:
 		if lo, hi, ok := intRange(tp); ok {
